@@ -44,7 +44,9 @@ func ppObserve(q []byte) (n int, panicked bool, alloc uint64) {
 func hostileQueries() []string {
 	return []string{"select $5", "$65535", "$65536", "$70000", "$1000000", "$99999999", "$2147483647", "$2147483648", "$4294967296",
 		"$9223372036854775807", "$9223372036854775808", "select $99999999999999999999", "$123456789012345678901234567890",
-		strings.Repeat("?", 70000), "$3" + strings.Repeat("?,", 66000), strings.Repeat("$1", 40000), strings.Repeat("$65535,", 3000)}
+		strings.Repeat("?", 70000), "$3" + strings.Repeat("?,", 66000), strings.Repeat("$1", 40000), strings.Repeat("$65535,", 3000),
+		// the highest index appears only after more than 65535 markers
+		strings.Repeat("$1,", 65535) + "$2", strings.Repeat("$1,", 65534) + "$2", strings.Repeat("$1,", 70000) + "$9 $3", strings.Repeat("$2 ", 65536) + "$40000"}
 }
 
 func emitPP(c *runCfg, id int, class string, q []byte) {
@@ -116,6 +118,13 @@ func runC20(c *runCfg) error {
 			msgs := [][]byte{mParse([]byte("s"), []byte(q), 0), mDescribe('S', []byte("s")), mSync(),
 				mParse(nil, []byte(q), 0), mDescribe('S', nil), mBind(nil, nil, nil, nil, nil), mDescribe('P', nil), mExecute(nil, 0), mSync()}
 			emitSession(c, lockCase(800000+i, "describe", cfg, stdStartup, msgs))
+			// the same with parameter types prespecified in the Parse message (fewer than, or other than, the placeholders)
+			if len(q) < 100 {
+				for k, oids := range [][]uint32{{23}, {0, 25}} {
+					pm := [][]byte{mParseOids([]byte("s"), []byte(q), oids), mDescribe('S', []byte("s")), mSync()}
+					emitSession(c, lockCase(810000+2*i+k, "describe_oids", cfg, stdStartup, pm))
+				}
+			}
 		}
 	}
 	// exhaustive: all strings of length <= L over a 6 letter alphabet
